@@ -237,9 +237,10 @@ P("C11", ["LC.Props.C11", "LC.Props.C06"], [TOK, v2run("TestVerifC11")],
   "markers, hyphen-split texts (natural, dense, indented, first line without tokens): (a) line k of the output "
   "holds the words Match attributes to line k (modulo first-letter case and interchangeable spelling); (b) "
   "Match(Normalize(in)) = Match(in) on non-Copyright matches. distinct = input; non-trivial = input has matches / > 3 tokens",
-  "PARTIAL: render_lines (line k of the output = words of line k) under StepOne and tokenize_stepOne (tokenizer output is "
-  "StepOne when no hyphenated line break is pending) are proved; replaceHttps_idem (C06) is the idempotence the repair relies "
-  "on. Re-matching equality is false for two recorded findings and is checked by the oracle.",
+  "PARTIAL: normalize_lines_all proves the line clause for EVERY input (line k of the Normalize output = the words the tokenizer "
+  "puts on line k, hyphenated line breaks included): render_lines_mono + tokenize_mono + tokenize_eol_lastlt + tokenize_words; "
+  "replaceHttps_idem (C06) is the idempotence the https repair relies on. Re-matching equality is false for two recorded "
+  "findings and is checked by the oracle.",
   ["known findings C11/* are reported as KNOWN-FINDING"], regen=ALLGEN)
 
 P("C12", ["LC.Props.C12"], [PATH, v2run("TestVerifC12")],
